@@ -12,10 +12,47 @@ LEAVES = ['RRG', 'RRGI', 'MUO', 'MDG', 'MEG']
 SHAPES = ['pipe', 'list', 'nested', 'composition-transform', 'pipe-right']
 
 
+_USER = {}
+
+
+def _user_classes():
+    """User-defined passes with implied pre/post passes (the Transformer extension point the
+    library documents): UPOST copies the circuit and implies MergeDuplicateGates afterwards
+    (whose own implied RemoveRedundantGates is a dependency of a dependency); UNEST implies
+    MergeUnaryOperators before and UPOST after."""
+    if not _USER:
+        import copy as _copy
+
+        from cirbo.core.circuit.transformer import Transformer
+        from cirbo.minimization.simplification import MergeDuplicateGates, MergeUnaryOperators
+
+        class UserPost(Transformer):
+            __idempotent__ = True
+
+            def __init__(self):
+                super().__init__(post_transformers=(MergeDuplicateGates(),))
+
+            def _transform(self, circuit):
+                return _copy.copy(circuit)
+
+        class UserNest(Transformer):
+            def __init__(self):
+                super().__init__(pre_transformers=(MergeUnaryOperators(),), post_transformers=(UserPost(),))
+
+            def _transform(self, circuit):
+                return _copy.copy(circuit)
+
+        _USER['UPOST'] = UserPost
+        _USER['UNEST'] = UserNest
+    return _USER
+
+
 def make(name):
     from cirbo.minimization.simplification import (
         MergeDuplicateGates, MergeEquivalentGates, MergeUnaryOperators, RemoveRedundantGates)
 
+    if name in ('UPOST', 'UNEST'):
+        return _user_classes()[name]()
     return {
         'RRG': lambda: RemoveRedundantGates(),
         'RRGI': lambda: RemoveRedundantGates(allow_inputs_removal=True),
